@@ -79,6 +79,12 @@ pub fn programs(tier: Tier) -> ProgramSet {
         let mut e1 = VariantSpec::unit("ExplicitSer");
         e1.serialize = vec!["Explicit_SerKept".into(), "x".into()];
         spec.variants.push(e1);
+        let mut e0 = VariantSpec::unit("SameAsIdent");
+        e0.serialize = vec!["SameAsIdent".into()];
+        spec.variants.push(e0);
+        let mut e00 = VariantSpec::unit("KeptToo");
+        e00.to_string = Some("KeptToo".into());
+        spec.variants.push(e00);
         let mut e2 = VariantSpec::unit("ExplicitToString");
         e2.to_string = Some("explicitTo-String KEPT".into());
         spec.variants.push(e2);
